@@ -238,11 +238,6 @@ Theorem to_string_spec ws zero one : wf ws ->
 Proof.
   intros (Hl & _). unfold to_string_m, s_to_string, Abs.abs.
   rewrite map_map, <- map_rev.
-  assert (E : seq 0 bits = 0 :: seq 1 (bits - 1)).
-  { replace bits with (S (bits - 1)) at 1 by lia. reflexivity. }
-  rewrite E.
-  cbn [rev]. rewrite map_app. cbn [map].
-  rewrite (test_raw_getbit bits k Hbits ws Hl 0 Hbits). f_equal.
   apply map_ext_in. intros i Hi. apply in_rev, in_seq in Hi.
   rewrite (test_raw_getbit bits k Hbits ws Hl i) by lia. reflexivity.
 Qed.
